@@ -1,2 +1,37 @@
-(* C09 -- placeholder *)
-Theorem C09_placeholder : True. Proof. exact I. Qed.
+(* C09 -- transport failures become events, never exceptions or hangs.  Statements only.
+   The exception plumbing of run() (try/except/else/finally, which class each clause catches, GeneratorExit not being an
+   Exception) is transcribed by hand into the model: it is MODELLED, the correspondence runs tie it to the code.  In
+   the model run is a total function: "an exception escapes the iterator" is not a possible value; the statements below
+   say what comes out instead. *)
+From Coq Require Import List NArith Bool.
+From Model Require Import Conn.
+From Proofs Require Import ShapeFacts RunFacts TraceFacts.
+Import ListNotations.
+
+(* whatever fails -- connect (any class of exception), the request write, any recv (EOF, OSError, arbitrary exception),
+   any library or application write, the selector -- the event sequence ends with ConnectFail before Connected and with
+   Disconnected afterwards, or the attempt is still running / was abandoned by the consumer *)
+Theorem C09_failures_become_events : forall cf app c0 cn steps, k_tr c0 = [] ->
+  run_shape (rev (evs (k_tr (run cf app c0 cn steps)))).
+Proof. exact run_event_shape. Qed.
+Print Assumptions C09_failures_become_events.
+
+(* no hang: a failing read or selector always ends the loop *)
+Theorem C09_no_hang : forall cf app steps c, existsb terminating steps = true ->
+  exists c' st, loop cf app steps c = finish app c' st.
+Proof. exact loop_terminates. Qed.
+
+(* graceful only when the websocket is no longer active: the loop reports Disconnected(graceful=True) only from a state
+   in which closing or closed is set (the closing handshake had started, or the websocket was closed) *)
+Theorem C09_graceful_only_when_inactive : forall cf app steps c, loop_end app c (loop cf app steps c).
+Proof. exact loop_ends. Qed.
+Print Assumptions C09_graceful_only_when_inactive.
+
+(* and the socket is closed on every exit *)
+Theorem C09_socket_closed : forall app c st, released (finish app c st).
+Proof. exact finish_released. Qed.
+
+(* application calls report trouble only as WebSocketError subclasses (or the documented ValueError): by the type of
+   the model's exn and the definition of write -- see C03/C08 for what each refusal leaves unchanged *)
+Theorem C09_app_errors : forall x, is_websocket_error x = true \/ x = XTypeError \/ x = XValueError.
+Proof. destruct x; cbn; auto. Qed.
